@@ -134,12 +134,22 @@ func (ex *Exec) bigMethod(st *PState, fn *ssa.Function, args []Value) Value {
 	case "Rsh", "Lsh":
 		x := L(1)
 		n := args[2].(*Term)
+		if nn, ok := ex.underGuard(st, n).(*Term); ok {
+			n = nn
+		}
 		if c, ok := n.constInt(); ok {
 			p := ts.Int(pow2(uint(c.Int64())))
 			if name == "Rsh" {
 				return set(ts.Div(x, p))
 			}
 			return set(ts.Mul(p, x))
+		}
+		if n.hi == nil || !n.hi.IsInt64() || n.hi.Int64() > 4096 {
+			// a wrapped conversion uint(e) of a small signed amount that the path guard makes non-negative
+			if src, ok := ex.modSrc[n.id]; ok && src.hi != nil && src.hi.IsInt64() && src.hi.Int64() <= 4096 &&
+				ex.guardDecides(st, ts.Le(z0, src)) > 0 {
+				n = src
+			}
 		}
 		if n.hi == nil || !n.hi.IsInt64() || n.hi.Int64() > 4096 {
 			fail("big.Int shift by unbounded amount")
@@ -284,7 +294,18 @@ func (ex *Exec) bigMethod(st *PState, fn *ssa.Function, args []Value) Value {
 			}
 			return set(ts.Int(r))
 		}
-		fail("symbolic big.Int.ModInverse")
+		if n.IsConst() && n.ival.Sign() > 0 && n.ival.ProbablyPrime(20) {
+			// prime modulus: the inverse exists exactly for g != 0 mod n; it is an opaque function of
+			// the residue with inv*g = 1 left uninterpreted (range [1, n-1])
+			gm := ts.Mod(g, n)
+			d := ts.DeclareUF("modinv!"+n.ival.Text(62), []Sort{SInt}, SInt, bigOne, new(big.Int).Sub(n.ival, bigOne))
+			inv := ts.App(d, gm)
+			ok := ts.Not(ts.Eq(gm, z0))
+			old := L(0)
+			ex.store(st, recv, ts.Ite(ok, inv, old))
+			return ex.mergeVal(ok, recv, &PtrV{})
+		}
+		fail("symbolic big.Int.ModInverse with a non-prime or symbolic modulus")
 	case "ProbablyPrime":
 		x := L(0)
 		if x.IsConst() {
